@@ -29,11 +29,12 @@ for l in open(os.path.join(V, "properties.jsonl")):
     nf = [f["signature"] for f in kf["findings"] if f["property"] == pid]
     nfix = len([f for f in kf["fixed"] if ("property=%s " % pid) in f])
     seeds = len([d for d in glob.glob(os.path.join(V, "seeded", "*")) if json.load(open(os.path.join(d, "meta.json"))).get("property") == pid])
-    rows.append("| %s | %s | %d%s | %s cases, %s distinct non-trivial, %.0f s | %d fixed%s | %d |" % (
+    rows.append("| %s | %s | %d%s | %s: %s cases, %s distinct non-trivial, %.0f s | %d fixed%s | %d |" % (
         pid, ", ".join("`%s`" % f for f in pf), nth, (" (+%d UNPROVED block%s)" % (unproved, "s" if unproved > 1 else "")) if unproved else "",
+        ("thorough" if "thorough" in json.dumps(ev.get("command", ev.get("tier", ""))) else "quick"),
         cov.get("evaluations", "?"), cov.get("distinct_nontrivial", "?"), ev.get("wall_s", 0),
         nfix, ("; recorded: " + ", ".join(nf)) if nf else "", seeds))
-txt = ("| property | theorem files (re-compiled with `Print Assumptions` on every run) | theorems | last quick run | defects | seeded changes |\n"
+txt = ("| property | theorem files (re-compiled with `Print Assumptions` on every run) | theorems | last run (tier) | defects | seeded changes |\n"
        "|---|---|---|---|---|---|\n" + "\n".join(rows) + "\n")
 p = os.path.join(V, "DESIGN.md")
 s = open(p).read()
